@@ -6,20 +6,23 @@
 (*   Scenario "hist":  from a given pair, every history of in-place and    *)
 (*       out-of-place operations up to Depth (exhaustive, or -simulate).   *)
 (* Alphabet: A, B, C, D and the clashing variants A2 (letter a) and        *)
-(* B2 (letter b) with other names and item counts.                         *)
+(* B2 (letter b) with other names and item counts, and A3: the NAME of A   *)
+(* with the LETTER of B (names and letters are independent attributes).    *)
+(* Sets in which two dimensions share a NAME are not explored (lookup by   *)
+(* name would be ambiguous): state constraint NamesUnique.                 *)
 (***************************************************************************)
 EXTENDS Integers, Sequences, FiniteSets, TLC, Json
 CONSTANTS Scenario, Depth, MaxLen, Alphabet, Emit,
           S1, S2, S3, T1, T2, T3          \* initial sets of scenario "hist", id by id ("" = none)
 
 MCDim == Alphabet
-MCLetterOf == [d \in {"A", "B", "C", "D", "A2", "B2"} |->
-                 CASE d \in {"A", "A2"} -> "a" [] d \in {"B", "B2"} -> "b" [] d = "C" -> "c" [] d = "D" -> "d"]
-MCNameOf == [d \in {"A", "B", "C", "D", "A2", "B2"} |->
-                 CASE d = "A" -> "dim_a" [] d = "A2" -> "alt_a" [] d = "B" -> "dim_b" [] d = "B2" -> "alt_b"
+MCLetterOf == [d \in {"A", "B", "C", "D", "A2", "B2", "A3"} |->
+                 CASE d \in {"A", "A2"} -> "a" [] d \in {"B", "B2", "A3"} -> "b" [] d = "C" -> "c" [] d = "D" -> "d"]
+MCNameOf == [d \in {"A", "B", "C", "D", "A2", "B2", "A3"} |->
+                 CASE d \in {"A", "A3"} -> "dim_a" [] d = "A2" -> "alt_a" [] d = "B" -> "dim_b" [] d = "B2" -> "alt_b"
                    [] d = "C" -> "dim_c" [] d = "D" -> "dim_d"]
-MCSizeOf == [d \in {"A", "B", "C", "D", "A2", "B2"} |->
-                 CASE d = "A" -> 2 [] d = "A2" -> 3 [] d = "B" -> 3 [] d = "B2" -> 2 [] d = "C" -> 2 [] d = "D" -> 1]
+MCSizeOf == [d \in {"A", "B", "C", "D", "A2", "B2", "A3"} |->
+                 CASE d \in {"A", "A3"} -> 2 [] d = "A2" -> 3 [] d = "B" -> 3 [] d = "B2" -> 2 [] d = "C" -> 2 [] d = "D" -> 1]
 MCRegs == {"r1", "r2", "r3"}
 
 VARIABLES ds, arrdims, last, hist
@@ -74,6 +77,7 @@ EmitInv == (Emit /\ Len(hist) = Depth) =>
     PrintT(<<"VEC", ToJson([scenario |-> Scenario, alphabet |-> AlphabetJson,
                             hist |-> hist])>>)
 
+NamesUnique == \A r \in MCRegs : Defined(r) => \A i, j \in DOMAIN ds[r] : MCNameOf[ds[r][i]] = MCNameOf[ds[r][j]] => i = j
 Prop_Unique == UniqueInv
 Prop_Receiver == ReceiverUnchanged
 Prop_Laws == (Defined("r1") /\ Defined("r2")) => Laws(ds["r1"], ds["r2"])
